@@ -327,8 +327,11 @@ func (s *JavaFullListener) EnterMethodDeclaration(ctx *parser.MethodDeclarationC
 	}
 	typeType := ctx.TypeTypeOrVoid().GetText()
 
-	if reflect.TypeOf(ctx.GetParent().GetParent().GetChild(0)).String() == "*parser.ModifierContext" {
-		common_listener.BuildAnnotationForMethod(ctx.GetParent().GetParent().GetChild(0).(*parser.ModifierContext), &currentMethod)
+	// every annotation among the member's modifiers belongs to the method (`@Test @Ignore public void ...`)
+	if decl, ok := ctx.GetParent().GetParent().(*parser.ClassBodyDeclarationContext); ok {
+		for _, modifier := range decl.AllModifier() {
+			common_listener.BuildAnnotationForMethod(modifier.(*parser.ModifierContext), &currentMethod)
+		}
 	}
 
 	// check, before your refactor
